@@ -60,7 +60,9 @@ def check(rep):
         total = b.get("ops", 0)
         ks = range(total) if (not quick or total < 700) else sorted(set(list(range(0, 120)) + rng.sample(range(total), 500)))
         for k in ks:
-            cases.append({"data": d, "fail": k})
+            # the injected error takes every std::io::ErrorKind in turn (Other, UnexpectedEof, BrokenPipe, InvalidData, TimedOut): whatever its kind, a
+            # failure of the stream is an I/O error of the call in progress, never a "malformed file"
+            cases.append({"data": d, "fail": k, "fail_kind": (0, 2, 3, 4, 6)[k % 5]})
             meta.append((name, k, b))
     res = readcheck.run_both(cases, profile, want_model=True, revisit=False)
     stats["reader_fault_points"] = len(cases)
@@ -113,7 +115,7 @@ def check(rep):
     lines, lmeta = [], []
     for h, b in zip(hs, base_out):
         for k in range(b["ops"]):
-            for kind in (0, 1):
+            for kind in (0, 1, 2 + k % 5):
                 lines.append(json.dumps(muxgen.to_harness(h, readback=False, fail=k, fail_kind=kind, stop_on_io=True)))
                 lmeta.append((h, b, k, kind))
         for chunk, intr in ((1, 0), (3, 4), (7, 0)):
